@@ -805,8 +805,11 @@ static int aff_reference(const char *s, aff_ref *R)
         int base_start = R->nids;
         int64_t v;
         if (a_int(&p, &v)) {
-            if (R->nids < AMAX_IDS)
-                R->ids[R->nids++] = (int)v;
+            if (R->nids >= AMAX_IDS) {
+                R->toobig = 1; /* the reference's buffer is full: not judged */
+                return 1;
+            }
+            R->ids[R->nids++] = (int)v;
         } else if (a_sym(&p, '{')) {
             for (;;) {
                 int64_t id, num = 1, stride = 1;
